@@ -66,7 +66,7 @@ def h_integ(ctx):
     linear = p.get("linear", True)
     hlib.reset_finam_state()
     t0 = ctx.dt("t0") if gaps_c is None else (hlib.T0 if ctx.concrete else symx.SymDT.const(hlib.T0))
-    step = None if linear else ctx.real("step", lo=0, hi=1)
+    step = None if linear else (p["step_value"] if "step_value" in p else ctx.real("step", lo=0, hi=1))
     per_time = which in ("avg", "sum_per_time")
     mk = {
         "avg": lambda: fm.adapters.AvgOverTime(step=step),
@@ -321,6 +321,16 @@ def families(tier):
                     bounds=f"{which}, {'linear' if linear else 'step (symbolic position in [0,1])'} interpolation; pattern "
                            f"{pat}; concrete irregular gaps {gaps} us; symbolic values and strictly increasing pulls",
                     must_cover=["pull:ok"], query_timeout_ms=20000))
+            if not linear:
+                # the end points of the step-position range as plain Python numbers (what a user writes)
+                for sv in ((0.0, 1.0) if q else (0.0, 1.0, 0, 1, 0.5)):
+                    fams.append(dict(
+                        name=f"{which}:step={sv!r}:PPPPRRR:gaps", ref="vf.props.c12:h_integ",
+                        params={"adapter": which, "pattern": "PPPPRRR", "gaps": [3000000, 1000000, 5000000],
+                                "linear": False, "step_value": sv},
+                        bounds=f"{which}, step interpolation with the concrete step position {sv!r}; pattern PPPPRRR; concrete "
+                               f"irregular gaps; symbolic values and strictly increasing pulls",
+                        must_cover=["pull:ok"], query_timeout_ms=20000))
             fams.append(dict(
                 name=f"{which}:{'linear' if linear else 'step'}:missing", ref="vf.props.c12:h_missing",
                 params={"adapter": which, "pattern": "PPPPRRR" if q else "PPPPPRRR",
